@@ -22,6 +22,7 @@ import (
 	"sync"
 	"time"
 
+	"github.com/dolthub/go-mysql-server/sql"
 	"github.com/dolthub/go-mysql-server/verifhook"
 
 	"verif/harness/core"
@@ -327,9 +328,9 @@ func main() {
 	}
 
 	// ---- the storm ----
-	reps := r.N(2, 6)
-	nIn, nSrv := r.N(8, 24), r.N(4, 8)
-	perSession := r.N(230, 800)
+	reps := r.N(2, 4)
+	nIn, nSrv := r.N(8, 16), r.N(4, 8)
+	perSession := r.N(230, 600)
 	type mismatch struct {
 		route string
 		item  int
@@ -504,6 +505,27 @@ func main() {
 		}
 	}
 	srv.Close()
+
+	// status-variable registry under direct concurrent use: increments from many goroutines are all counted
+	{
+		const G, N = 16, 20000
+		before := questions()
+		var wg sync.WaitGroup
+		for g := 0; g < G; g++ {
+			wg.Add(1)
+			go func() {
+				defer wg.Done()
+				for i := 0; i < N; i++ {
+					sql.StatusVariables.IncrementGlobal("Questions", 1)
+				}
+			}()
+		}
+		wg.Wait()
+		r.Eval(1)
+		if got := questions() - before; got != G*N {
+			r.Violation("status:concurrent-increments-lost", map[string]any{"goroutines": G, "increments_each": N, "expected": G * N, "observed": got})
+		}
+	}
 
 	g4lib.ReportRaces(r, func(rep core.RaceReport) string {
 		if isF7(rep) {
